@@ -1,7 +1,10 @@
 (* C14 -- text positions and error reports: text_pos_at is total on valid UTF-8, clamps, counts
    rows by LF and columns in characters, stays in bounds and moves with inserted line breaks / spaces;
    every Err returned by parse carries the position of an offset inside the input (or is one of the
-   seven position-less variants, which report 1:1), hence row / column are within the input.
+   seven position-less variants, which report 1:1), hence row / column are within the input.  Shift over a whole
+   parse: whitespace put in front of a document (no BOM / declaration) leaves the outcome unchanged -- an Ok result is
+   the same document with shifted offsets, an Err has the same variant and payload and is reported at the same place of
+   the document (offset + k), i.e. k spaces move the column of a row-1 error by k, k line breaks move the row by k.
    Statements are pinned here (copied verbatim from the proof files by tools/pin_props.py);
    each is re-proved by `exact` and followed by Print Assumptions. *)
 From Coq Require Import Ascii String.
@@ -9,7 +12,7 @@ From Coq Require Import List NArith Bool PeanoNat Sorted.
 Import ListNotations.
 From RX Require Import Generated.
 From RX.Model Require Import Base CharClass Stream Tokenizer Doc Builder Parse Api.
-From RX.Proofs Require Import PositionProofs ErrPosStream ErrPosTokenizer ErrPosParse ErrPayload.
+From RX.Proofs Require Import PositionProofs ErrPosStream ErrPosTokenizer ErrPosParse ErrPayload RangeShiftBuilder ErrShiftBase ErrShiftFinal.
 Open Scope N_scope.
 
 (* ---- Proofs/PositionProofs.v ---- *)
@@ -69,8 +72,53 @@ Theorem C14_text_pos_shift_spaces_gen :
 Proof. exact text_pos_shift_spaces_gen. Qed.
 Print Assumptions C14_text_pos_shift_spaces_gen.
 
+(* ---- Proofs/ErrShiftFinal.v ---- *)
+Theorem C14_parse_err_shift :
+  forall ws text opt e,
+  forallb byte_is_space ws = true -> valid_utf8_b text = true ->
+  starts_with (stream_new text) [239;187;191] = false -> starts_with_declaration (stream_new text) = false ->
+  parse text opt = Err e ->
+  exists e', parse (ws ++ text) opt = Err e' /\
+    (* same variant, same payload *)
+    err_kind e = err_kind e' /\
+    (* errors without a position are equal outright *)
+    (has_pos e = false -> e' = e) /\
+    (* the position is that of the same place of the document *)
+    (has_pos e = true -> exists off, off <= tlen text /\ is_boundary text off = true /\
+        text_pos_at text off = Ok (error_pos e) /\
+        text_pos_at (ws ++ text) (off + blen ws) = Ok (error_pos e')).
+Proof. exact parse_err_shift. Qed.
+Print Assumptions C14_parse_err_shift.
+
+Theorem C14_parse_ok_shift :
+  forall ws text opt d,
+  forallb byte_is_space ws = true -> valid_utf8_b text = true -> ws <> [] ->
+  starts_with (stream_new text) [239;187;191] = false -> starts_with_declaration (stream_new text) = false ->
+  parse text opt = Ok d -> parse (ws ++ text) opt = Ok (sh_doc (blen ws) d).
+Proof. exact parse_ok_shift. Qed.
+Print Assumptions C14_parse_ok_shift.
+
+Theorem C14_parse_err_shift_spaces :
+  forall n text opt e, valid_utf8_b text = true ->
+  starts_with (stream_new text) [239;187;191] = false -> starts_with_declaration (stream_new text) = false ->
+  parse text opt = Err e -> has_pos e = true ->
+  exists e', parse (repeat 32 n ++ text) opt = Err e' /\ err_kind e = err_kind e' /\
+    error_pos e' = (fst (error_pos e),
+                    if fst (error_pos e) =? 1 then N.of_nat n + snd (error_pos e) else snd (error_pos e)).
+Proof. exact parse_err_shift_spaces. Qed.
+Print Assumptions C14_parse_err_shift_spaces.
+
+Theorem C14_parse_err_shift_lines :
+  forall n text opt e, valid_utf8_b text = true ->
+  starts_with (stream_new text) [239;187;191] = false -> starts_with_declaration (stream_new text) = false ->
+  parse text opt = Err e -> has_pos e = true ->
+  exists e', parse (repeat 10 n ++ text) opt = Err e' /\ err_kind e = err_kind e' /\
+    error_pos e' = (N.of_nat n + fst (error_pos e), snd (error_pos e)).
+Proof. exact parse_err_shift_lines. Qed.
+Print Assumptions C14_parse_err_shift_lines.
+
 (* ---- Proofs/ErrPosTokenizer.v ---- *)
-Module G1.
+Module G2.
 Local Notation token := Tokenizer.token.
 Theorem C14_tokenizer_errors_positioned :
   forall text (C : Type) (ev : token -> C -> res C) dtd c e,
@@ -79,7 +127,7 @@ Theorem C14_tokenizer_errors_positioned :
 Proof. exact tokenizer_errors_positioned. Qed.
 Print Assumptions C14_tokenizer_errors_positioned.
 
-End G1.
+End G2.
 
 (* ---- Proofs/ErrPosParse.v ---- *)
 Theorem C14_token_errors_positioned :
